@@ -17,6 +17,7 @@ RULE = ("Generated: state type (3) x n 1..3 (thorough: ..4) x nh 1..4 x na 1..3,
         "(complex/density) >= 2 distinct bases one containing Y, or (positive) >= 2 distinct rows; all biases non-zero.")
 RULE_EXT = ('Extended as built: single-basis batches of 100-300 rows, n = 8, 9 states, polarised parameter regimes with rare outcomes (rows excluded only by conditioning |sum terms|/sum|terms| < 1e-6, counted), bases passed as ndarray / list / str, gradients re-evaluated along an in-place history A -> B -> A, deprecated aliases. Rounds 5-6: user-added / overridden unitaries with user letters in measurement bases; load() of a file with other unitaries for the same letters, then gradients again; the bases=None route vs spelled-out all-Z bases; compute_batch_gradients(k, batch, batch) called directly (same tensor in both roles, replayed under the same seed); uniformly negative polarised biases with small compensating weights; num_aux = 0.')
 RULE_EXT += ' Round 10 (after an exception / long time axis): refused gradient calls (unknown basis letter, wrong width, mismatched bases; caught) each followed by a direct gradient() call that must repeat its earlier value; 36 other bases arrays / batches on the same object, then the first data set again.'
+RULE_EXT += ' Round 11 (re-entrant use / feature interactions): compute_exact_gradients (twice) and positive_phase_gradients asked for from inside the callbacks of a running fit on the same data vs the autograd reference at the parameters of that moment.'
 RULE = RULE + " " + RULE_EXT
 ASSUMPTIONS = ["parameter scale <= 2 (the gradient of -log p is ill-conditioned where p ~ 0)",
                "tolerance |g - g_ref| <= 1e-6*(1+max|g_ref|)", "CPU, float64"]
